@@ -28,7 +28,7 @@ ValueOf(a, ch) == (CHOOSE p \in a : p[1] = ch)[2]
 (* allowed observations *)
 Effective(a) ==
   IF a = {} THEN {"default"}
-  ELSE IF \E p \in a : p[2] = "BAD" THEN {"refused"}                       \* an invalid value is never silently ignored
+  ELSE IF \E p \in a : p[2] \in {"BAD", "EMPTY"} THEN {"refused"}            \* an invalid value is never silently ignored
   ELSE IF "flag" \in ChannelsOf(a) THEN {ValueOf(a, "flag")}               \* the command line always wins
   ELSE { p[2] : p \in a }                                                  \* among the other channels the order is not specified
 
@@ -36,5 +36,9 @@ Cases ==
      { [setting |-> s, assign |-> {<<ch, "V1">>}, kind |-> "alone"] : s \in Settings, ch \in Channels }
 \cup { [setting |-> s, assign |-> {<<"flag", "V1">>, <<ch, "V2">>}, kind |-> "flagwins"] : s \in Settings, ch \in Channels \ {"flag"} }
 \cup { [setting |-> s, assign |-> {<<ch, "BAD">>}, kind |-> "malformed"] : s \in Security, ch \in Channels }
+\* a blank value is as invalid as garbage (for the settings whose type has no empty value)
+\cup { [setting |-> s, assign |-> {<<ch, "EMPTY">>}, kind |-> "malformed"] : s \in {"client-whitelist", "max-clients", "read-timeout"}, ch \in Channels }
+\* the channels must not depend on each other: no HOME / XDG_CONFIG_HOME in the environment (no user configuration directory)
+\cup { [setting |-> s, assign |-> {<<ch, "V1">>}, kind |-> "nohome"] : s \in Settings, ch \in Channels \ {"userini"} }
 \cup { [setting |-> s, assign |-> {}, kind |-> "default"] : s \in Settings }
 =============================================================================
